@@ -329,7 +329,7 @@ def run(chk):
                             except T.Unsupported:
                                 raise
                             except Exception as e:
-                                chk.fail(tag, f"{type(e).__name__}: {e}", fn=fn, replay=rp, goal="no unrelated exception")
+                                chk.raised(tag, e, fn=fn, replay=rp, goal="no unrelated exception")
                         tag = f"C04.slots.{vname}.gamma_singlet[order={order},nf={nf}{ex}]"
                         fn = f"ekore.anomalous_dimensions.{vname}:gamma_singlet"
                         try:
@@ -342,7 +342,7 @@ def run(chk):
                         except T.Unsupported:
                             raise
                         except Exception as e:
-                            chk.fail(tag, f"{type(e).__name__}: {e}", fn=fn, replay=rp, goal="no unrelated exception")
+                            chk.raised(tag, e, fn=fn, replay=rp, goal="no unrelated exception")
                     chk.configs += 1
         # matching dispatchers: unpolarised space-like fills every slot; polarised fills what its modules provide or refuses; time-like beyond NLO is the documented exception
         L = T.var("L")
@@ -361,7 +361,7 @@ def run(chk):
                 except T.Unsupported:
                     raise
                 except Exception as e:
-                    chk.fail(tag, f"{type(e).__name__}: {e}", fn=fn, replay=rp, goal="no unrelated exception")
+                    chk.raised(tag, e, fn=fn, replay=rp, goal="no unrelated exception")
     finally:
         for mod, nm, f in reversed(saved):
             setattr(mod, nm, f)
